@@ -18,7 +18,7 @@
    TLC enumerates the cases; Emit prints each one with what the implementation must answer.          *)
 EXTENDS Integers, Sequences, FiniteSets, TLC, Json
 
-CONSTANTS Part,          \* which family of cases this run enumerates: "lattice", "bounds", "random", "texts"
+CONSTANTS Part,          \* which family of cases this run enumerates: "lattice", "bounds", "random", "texts", "patterns"
           MaxMant,       \* lattice: mantissas 0..MaxMant
           DownExp, MaxExp,\* lattice: exponents -DownExp..MaxExp
           NRandom,       \* random: how many bit patterns
@@ -170,6 +170,12 @@ RandomCases == {[kind |-> "random", neg |-> RandomElement(BOOLEAN), bits |-> <<1
                  e |-> RandomElement((-1074)..971), salt |-> i] : i \in 1..NRandom}
                 \cup {[kind |-> "random", neg |-> RandomElement(BOOLEAN), bits |-> RandomBits(RandomElement(1..52)),
                  e |-> -1074, salt |-> i] : i \in 1..(NRandom \div 4)}
+(* bit patterns only (no expansions): numbers whose printed text has 16-17 significant digits, for the two-phase round trip
+   "what is printed, written back as a source literal or given to to_num, is the number" *)
+PatternCases == {[kind |-> "pattern", neg |-> RandomElement(BOOLEAN), bits |-> <<1>> \o RandomBits(52),
+                  e |-> RandomElement((-110)..20), salt |-> i] : i \in 1..NRandom}
+                \cup {[kind |-> "pattern", neg |-> RandomElement(BOOLEAN), bits |-> <<1>> \o RandomBits(52),
+                  e |-> RandomElement((-1074)..971), salt |-> i] : i \in 1..(NRandom \div 4)}
 RECURSIVE TextsUpTo(_)
 TextsUpTo(n) == IF n = 0 THEN {<<>>} ELSE LET p == TextsUpTo(n - 1) IN p \cup {Append(t, c) : t \in p, c \in TextAlphabet}
 Words == {<<"i", "n", "f">>, <<"I", "N", "F">>, <<"I", "n", "f">>, <<"n", "a", "n">>, <<"N", "a", "N">>, <<"N", "A", "N">>,
@@ -180,7 +186,7 @@ TextCases == {[kind |-> "texts", text |-> t] : t \in TextsUpTo(MaxText)}
 
 Mine(c) == (Len(c.bits) + c.e + 2000 + (IF c.neg THEN 1 ELSE 0)) % NShards = Shard
 Cases == CASE Part = "lattice" -> {c \in LatticeCases : Mine(c)} [] Part = "bounds" -> {c \in BoundCases : Mine(c)}
-           [] Part = "random" -> RandomCases [] Part = "texts" -> TextCases
+           [] Part = "random" -> RandomCases [] Part = "texts" -> TextCases [] Part = "patterns" -> PatternCases
 
 VARIABLE case
 Init == case \in Cases
@@ -193,6 +199,8 @@ Flat(t) == IF t = <<>> THEN "" ELSE t[1] \o Flat(Tail(t))
 Expect(c) ==
     IF c.kind = "texts"
     THEN [text |-> Flat(c.text), reads |-> Reads(c.text), literal |-> IsLiteral(c.text)]
+    ELSE IF c.kind = "pattern"
+    THEN LET x == Norm(c.bits, c.e) IN [neg |-> c.neg, bits |-> x.bits, e |-> x.e]
     ELSE LET x == Norm(c.bits, c.e)
              d == ExactOf(x.bits, x.e)
          IN [neg |-> c.neg, bits |-> x.bits, e |-> x.e, fmt |-> FmtOf(d, c.neg), around |-> AroundOf(x, d), integral |-> Integral(x)]
